@@ -114,13 +114,16 @@ class InitMethod(MethodDescriptor):
         # initialize the attribute.
         for attr, attr_spec in instance_metadata.attrs.items():
             if (
-                not attr_spec.init
-                or attr_spec.owner is not spec_cls
+                attr_spec.owner is not spec_cls
                 or attr == instance_metadata.init_overflow_attr
             ):
                 continue
 
-            value = kwargs.get(attr, MISSING)
+            # Attributes that are not constructor arguments (`init=False`) are
+            # given their default all the same (as by `dataclasses`): left to
+            # the class-level value, every instance - and every copy of it -
+            # would read, and mutate, one shared and unprepared object.
+            value = kwargs.get(attr, MISSING) if attr_spec.init else MISSING
             if value is UNCHANGED:
                 value = MISSING  # Nothing to change: the default applies.
             if value is not MISSING:
